@@ -11,7 +11,7 @@
    layers, file copying of the images and the EXIF/GNSS import (the exporter writes no exif folder) are
    not modelled; they are exercised by the correspondence run.
 
-   MODELLED AS IT IS IN THE TREE (after the repairs fixes/C15-*.patch):
+   MODELLED AS IT IS IN THE TREE (four of the five repairs of fixes/C15-*.patch are committed):
      cameras   every kapture camera -> {perspective, int(w), int(h), f / max(w,h), k1, k2}; a camera type
                other than SIMPLE_PINHOLE / SIMPLE_RADIAL / RADIAL makes the export fail (ValueError);
                import: RADIAL [w, h, focal * max(w,h), w/2, h/2, k1, k2]
@@ -20,7 +20,8 @@
                trajectory entry (rigs are NOT flattened by the exporter); import: timestamp = position in
                the shots dict, KeyError when a shot has no pose
      points    export: dict keyed by the row index (JSON turns the int keys into decimal strings);
-               import: rows in NUMERIC key order  (legacy: string order)
+               import: rows in the STRING order of the keys — the code as it is, a known finding:
+               [import_points]; the numeric order of the unapplied repair is [import_points_repaired]
      features  one file per image holding 'points' and/or 'descriptors'; import takes whichever is there
      matches   one file per image a: { b : int index pairs } for every pair (a, b) of the matches set,
                orientation of the pair kept; import: pair (a, b), columns (i, j, 1.0)
@@ -229,7 +230,7 @@ Section Convert.
     end.
   Fixpoint nsort {V} (l : list (nat * V)) : list (nat * V) :=
     match l with [] => [] | x :: l' => ninsert x (nsort l') end.
-  (* legacy: sorted(opensfm_points): the same on the key as a string *)
+  (* sorted(opensfm_points), as the code does today: the same on the key as a string *)
   Fixpoint kinsert {V} (x : string * V) (l : list (string * V)) : list (string * V) :=
     match l with
     | [] => [x]
@@ -246,14 +247,29 @@ Section Convert.
   (* kapture.Points3d(list of rows): Nx3 or Nx6 (an empty list is handled apart, see below) *)
   Definition shape_ok (rows : list (list Q)) : bool := forallb (has_len 6) rows || forallb (has_len 3) rows.
 
+  (* THE CODE AS IT IS (import_opensfm.py:350, `for point_id in sorted(opensfm_points)`): the ids are
+     ordered as STRINGS ("10" < "2"); known finding, not repaired in the tree (see docs/C15.md).
+     An empty dict gives an empty cloud (commit 6848012). *)
   Definition import_points (pts : option (list (string * opoint))) : result (option (list (list Q))) :=
+    match pts with
+    | None => Ok None
+    | Some l =>
+        let rows := map (fun kp => row_of (snd kp)) (ksort l) in
+        match rows with
+        | [] => Ok (Some [])
+        | _ => if shape_ok rows then Ok (Some rows) else Err EPointsShape
+        end
+    end.
+
+  (* NOT in the tree: the repair `sorted(opensfm_points, key=int)` (fixes/not-applied/) — numeric id order *)
+  Definition import_points_repaired (pts : option (list (string * opoint))) : result (option (list (list Q))) :=
     match pts with
     | None => Ok None
     | Some l =>
         bind (parse_keys l) (fun kl =>
           let rows := map (fun kp => row_of (snd kp)) (nsort kl) in
           match rows with
-          | [] => Ok (Some [])               (* repaired: Points3d() for an empty dict *)
+          | [] => Ok (Some [])
           | _ => if shape_ok rows then Ok (Some rows) else Err EPointsShape
           end)
     end.
@@ -268,19 +284,28 @@ Section Convert.
     : list ((string * string) * list mrow) :=
     flat_map (fun f => map (fun e => ((fst f, fst e), map one_score (snd e))) (snd f)) ms.
 
-  Definition import_ (p : project) : result dataset :=
+  (* the importer, parametric in how the points dict is read *)
+  Definition import_gen (ipts : option (list (string * opoint)) -> result (option (list (list Q))))
+             (p : project) : result dataset :=
     bind (import_cameras (o_cameras p)) (fun cams =>
     bind (import_shots 0 (o_shots p)) (fun st =>
-    bind (import_points (o_points p)) (fun pts =>
+    bind (ipts (o_points p)) (fun pts =>
     Ok {| d_cameras := cams; d_images := fst st; d_traj := snd st; d_points := pts;
           d_keypoints := import_keypoints (o_features p);
           d_descriptors := import_descriptors (o_features p);
           d_matches := import_matches (o_matches p) |}))).
 
-  Definition roundtrip (d : dataset) : result dataset := bind (export d) import_.
+  (* [import_] / [roundtrip] MODEL THE CODE AS IT IS and are what the correspondence run checks;
+     [import_repaired] / [roundtrip_repaired] model the tree with the numeric-order repair applied. *)
+  Definition import_ : project -> result dataset := import_gen import_points.
+  Definition import_repaired : project -> result dataset := import_gen import_points_repaired.
 
-  (* ---------------------------------------------------------------- the tree before the repairs *)
-  (* (1) point ids ordered as strings; (5) Points3d([]) raises for an empty dict *)
+  Definition roundtrip (d : dataset) : result dataset := bind (export d) import_.
+  Definition roundtrip_repaired (d : dataset) : result dataset := bind (export d) import_repaired.
+
+  (* ---------------------------------------------------------------- the tree before the four committed repairs
+     (3642976 features npz, 066b9d5 np.int, 6848012 empty cloud, 5fdd6d1 optional arrays) *)
+  (* (5) Points3d([]) raises for an empty dict (ids in string order then as now) *)
   Definition import_points_legacy (pts : option (list (string * opoint))) : result (option (list (list Q))) :=
     match pts with
     | None => Ok None
